@@ -151,5 +151,11 @@ let with_stack (stack : string) (dl : deadline) (orc : oracles) (repair : bool) 
       | Ok (_, (_, w)) -> fin w
       | Panic -> Panic
       | OutOfFuel -> OutOfFuel)
+  | "replace_compact" -> (
+      (* the adapters nested the other way round: Replace hands replace events to Compact *)
+      match r.run (replace_world (compact_world pw orc.o_on repair) !dbg) (rstate0, ([], plain0)) with
+      | Ok (_, (_, w)) -> fin w
+      | Panic -> Panic
+      | OutOfFuel -> OutOfFuel)
   | s -> failwith ("bad stack " ^ s)
 
